@@ -69,6 +69,8 @@ def oracle(ctx, s, ds, qs, case):
     rel = 1e-7
 
     def cmp(name, a, b, bucket):
+        if a.shape != b.shape:
+            raise PropertyViolation(bucket + "/shape", "%s has shape %r, the grid is %r" % (name, a.shape, b.shape), case)
         sc = np.max(np.abs(b[pd]))
         bad = pd & ~(np.abs(a - b) <= rel * sc)
         if a.shape != b.shape or np.any(bad):
@@ -97,6 +99,8 @@ def oracle(ctx, s, ds, qs, case):
                 raise PropertyViolation("C07/compliance-missing", "s%d%d absent although it is %.3g (max %.3g)" % (
                     k[0], k[1], float(np.max(np.abs(want[pd]))), smax), case)
             continue
+        if have.shape != want.shape:
+            raise PropertyViolation("C07/compliance-shape", "s%d%d has shape %r, the grid is %r" % (k[0], k[1], have.shape, want.shape), case)
         bad = pd & ~(np.abs(have - want) <= 1e-8 * smax)
         if np.any(bad):
             idx = tuple(int(x) for x in np.argwhere(bad)[0])
